@@ -138,6 +138,11 @@ func genC13(p *Plan, r *RNG) {
 			p.Ops = append(p.Ops, o)
 		case w < 82:
 			p.Ops = append(p.Ops, Op{Actor: "app", Kind: "set_deadline", At: g, A: OpArgs{DurNS: r.PickI64([]int64{1, ms, 500 * ms, 3 * sec, 60 * sec, -sec})}})
+			if r.Chance(1, 3) {
+				// a datagram is waiting when the deadline has passed: the read fails all the same
+				p.Ops = append(p.Ops, Op{Actor: "srv", Kind: "srv_data", At: gap(int64(r.Range(1, 50)) * ms), A: OpArgs{Peer: peer, Len: r.Range(9, 100)}})
+				p.Ops = append(p.Ops, Op{Actor: "app", Kind: "readfrom", At: gap(int64(r.Range(100, 900)) * ms)})
+			}
 		case w < 86:
 			// burst larger than the read queue while nobody reads
 			for k := 0; k < r.PickInt([]int{50, 1100}); k++ {
